@@ -6,9 +6,11 @@ import (
 	"encoding/base64"
 	"encoding/json"
 	"io"
+	"net"
 	"net/http"
 	"net/http/httptest"
 	"net/url"
+	"os"
 	"strings"
 	"sync"
 	"time"
@@ -243,6 +245,10 @@ func (s anyKeyStorage) GetKeyByIDAndClientID(context.Context, string, string) (*
 	return s.key, nil
 }
 
+// hdrMismatch: header algorithm, algorithm family of the key the set holds
+var hdrMismatch = map[string][2]string{"esAlgRsaKey": {"ES256", "RS256"}, "esAlgOkpKey": {"ES256", "EdDSA"}, "rsAlgEcKey": {"RS256", "ES256"}, "psAlgEcKey": {"PS256", "ES256"},
+	"edAlgRsaKey": {"EdDSA", "RS256"}, "edAlgEcKey": {"EdDSA", "ES256"}, "es384AlgRsaKey": {"ES384", "RS256"}}
+
 func verifyCase(c M) M {
 	fn, pl, segs := S(c, "fn"), S(c, "payload"), S(c, "segs")
 	key := modelstore.GenKey("c09-trusted", jose.ES256)
@@ -263,6 +269,18 @@ func verifyCase(c M) M {
 	h64 := seg(`{"alg":"ES256","kid":"c09-trusted","typ":"JWT"}`)
 	p64 := seg(payload)
 	sig := b64.EncodeToString(rawSign("ES256", key, []byte(h64+"."+p64)))
+	// hdr: the header names an algorithm of another key family than the key the set holds
+	hdr := S(c, "hdr")
+	var rpKeys oidc.KeySet = staticKeys{key.Pub}
+	var rpOpts = []rp.VerifierOption{rp.WithNonce(nil)}
+	if m, ok := hdrMismatch[hdr]; ok {
+		key = modelstore.GenKey("c09-trusted-"+m[1], jose.SignatureAlgorithm(m[1]))
+		h64 = seg(`{"alg":"` + m[0] + `","kid":"c09-trusted","typ":"JWT"}`)
+		sig = b64.EncodeToString(randBytes(64))
+		jb, _ := json.Marshal(jose.JSONWebKeySet{Keys: []jose.JSONWebKey{{Key: key.Pub, KeyID: "c09-trusted", Use: "sig"}}})
+		rpKeys = rp.NewRemoteKeySet(&http.Client{Transport: jwksTransport{jb}}, sigIssuer+"/keys")
+		rpOpts = append(rpOpts, rp.WithSupportedSigningAlgorithms("RS256", "PS256", "ES256", "ES384", "EdDSA"))
+	}
 	token := h64 + "." + p64 + "." + sig
 	switch segs {
 	case "0":
@@ -284,15 +302,17 @@ func verifyCase(c M) M {
 	p := CatchPanic(func() {
 		switch fn {
 		case "rp.VerifyIDToken":
-			_, err = rp.VerifyIDToken[*oidc.IDTokenClaims](ctx, token, rp.NewIDTokenVerifier(sigIssuer, "cid", staticKeys{key.Pub}, rp.WithNonce(nil)))
+			_, err = rp.VerifyIDToken[*oidc.IDTokenClaims](ctx, token, rp.NewIDTokenVerifier(sigIssuer, "cid", rpKeys, rpOpts...))
 		case "rp.VerifyTokens":
-			_, err = rp.VerifyTokens[*oidc.IDTokenClaims](ctx, "access-token", token, rp.NewIDTokenVerifier(sigIssuer, "cid", staticKeys{key.Pub}, rp.WithNonce(nil)))
+			_, err = rp.VerifyTokens[*oidc.IDTokenClaims](ctx, "access-token", token, rp.NewIDTokenVerifier(sigIssuer, "cid", rpKeys, rpOpts...))
 		case "op.VerifyAccessToken":
 			ks := &op.OpenIDKeySet{Storage: keysOnlyStorage{keys: []op.Key{opKey{id: "c09-trusted", use: "sig", key: key.Pub}}}}
-			_, err = op.VerifyAccessToken[*oidc.AccessTokenClaims](ctx, token, op.NewAccessTokenVerifier(sigIssuer, ks))
+			_, err = op.VerifyAccessToken[*oidc.AccessTokenClaims](ctx, token, op.NewAccessTokenVerifier(sigIssuer, ks,
+				op.WithSupportedAccessTokenSigningAlgorithms("RS256", "PS256", "ES256", "ES384", "EdDSA")))
 		case "op.VerifyIDTokenHint":
 			ks := &op.OpenIDKeySet{Storage: keysOnlyStorage{keys: []op.Key{opKey{id: "c09-trusted", use: "sig", key: key.Pub}}}}
-			_, err = op.VerifyIDTokenHint[*oidc.IDTokenClaims](ctx, token, op.NewIDTokenHintVerifier(sigIssuer, ks))
+			_, err = op.VerifyIDTokenHint[*oidc.IDTokenClaims](ctx, token, op.NewIDTokenHintVerifier(sigIssuer, ks,
+				op.WithSupportedIDTokenHintSigningAlgorithms("RS256", "PS256", "ES256", "ES384", "EdDSA")))
 		case "op.VerifyJWTAssertion":
 			st := anyKeyStorage{key: &jose.JSONWebKey{Key: key.Pub, KeyID: "c09-trusted"}}
 			_, err = op.VerifyJWTAssertion(ctx, token, op.NewJWTProfileVerifier(st, sigIssuer, time.Hour, time.Second))
@@ -397,6 +417,15 @@ func (t hostileTransport) RoundTrip(r *http.Request) (*http.Response, error) {
 	if t.served != nil {
 		*t.served++
 	}
+	if t.body == "*stall*" {
+		// the provider accepts the connection and never answers: the request ends with the caller's deadline, or as a network time-out
+		select {
+		case <-r.Context().Done():
+			return nil, r.Context().Err()
+		case <-time.After(120 * time.Millisecond):
+			return nil, &net.OpError{Op: "read", Net: "tcp", Err: os.ErrDeadlineExceeded}
+		}
+	}
 	resp.StatusCode = t.status
 	resp.Body = io.NopCloser(strings.NewReader(t.body))
 	if t.status == 302 {
@@ -427,6 +456,8 @@ func hostileBody(helper, body string) string {
 		return `{"error":"invalid_request","error_description":"no"}`
 	case "html":
 		return "<html><body>502 bad gateway</body></html>"
+	case "stall":
+		return "*stall*"
 	}
 	switch helper {
 	case "client.Discover", "rp.NewRelyingPartyOIDC", "rs.NewResourceServer":
